@@ -14,4 +14,4 @@ Separate Extraction
   Layout.open_model Layout.meta_valid Layout.rd_meta
   Compact.compact Compact.wf_ents
   Grow.alloc_refused Grow.grow Grow.grow_nosync Grow.mmap_size
-  Pager.pstep Pager.pg_open Pager.scan_free Pager.commit_writes Pager.pend_pages Pager.minus.
+  Pager.pstep Pager.pg_open Pager.scan_free Pager.commit_writes Pager.pend_pages Pager.minus Pager.e_tx Pager.e_pg.
